@@ -6,4 +6,6 @@ ParaAlphabet == {"P","T","t","W","BR","INL","A","AJ","FONT"}
 ParaRoots    == {"P"}
 MrkAlphabet  == {"MRK","DIV","P","T","t","INL","UL","LI","IMG","BR"}
 MrkRoots     == {"MRK","DIV","P","T","UL","IMG"}
+EmptyAlphabet == {"DIV","A","IMG","BR","T"}
+EmptyRoots    == {"DIV"}
 ====
